@@ -180,12 +180,14 @@ class Hist:
         W = self.ow.W
         out = []
         after = self.I.mem
-        for k in (set(before) | set(after)) - {"#bytes"}:
+        for k in {k for k in set(before) | set(after) if not k.startswith("#")}:
             if before.get(k, "<unknown>") == after.get(k, "<unknown>") or (k in before and k in after and self.I._eq(before[k], after[k]) is True):
                 continue
             p = W.polys.get(k)
             if p is None:
                 continue
+            if k not in after and self.I.mem.get("#imprecise"):
+                raise AnalysisError(f"{label}: the word at {p!r} cannot be followed through a bulk store (update_from_nplike / data of unknown length)")
             inside = False
             for pos, nb in allowed:
                 d = p - pos
@@ -207,7 +209,11 @@ class Hist:
                     self.found.append((step, opn, f"{name} has the parts {sorted(got)}, the history gives it {sorted(want)}"))
                 else:
                     for p in sorted(want):
-                        if self.I._eq(got[p], want[p]) is not True:
+                        eq = self.I._eq(got[p], want[p])
+                        if eq is None and self.I.mem.get("#imprecise"):
+                            # a bulk store this memory does not follow made the word unknown: not a verdict
+                            raise AnalysisError(f"SV: {name}{p} cannot be followed through a bulk store (update_from_nplike / data of unknown length)")
+                        if eq is not True:
                             self.found.append((step, opn, f"{name}{p} reads {got[p]!r}, the history gives it {want[p]!r}"))
                             break
 
@@ -380,6 +386,75 @@ class Hist:
             pass
         return out + self.frame(before, [], "refused sa1[1] = <40 characters>")
 
+    def slot_word(self, h, pos):
+        I = self.I
+        return I.call(I.getattr(I.global_lookup("scalar", "Int64"), "_from_buffer"), [h.attrs["_buffer"], pos], {})
+
+    def op_str_item_from_object(self):
+        """a String OBJECT (smaller than the slot) assigned to an item: the item takes its text and keeps the size it
+        was created with (PF51)"""
+        I = self.I
+        h = self.objs["sa1"]
+        Str = I.global_lookup("string", "String")
+        v = I.call(Str, ["hi"], {"_buffer": self.ow.buf("B")})
+        before = self.snapshot()
+        pos = I.call(I.getattr(h, "_get_offset"), [0], {})
+        w0 = self.slot_word(h, pos)
+        I.call(I.getattr(h, "__setitem__"), [0, v], {})
+        self.expect["sa1"]["[0]"] = "hi"
+        out = []
+        w1 = self.slot_word(h, pos)
+        if I._eq(w0, w1) is not True:
+            out.append(f"sa1[0] = String('hi'): the size recorded in the item's slot changes from {w0!r} to {w1!r} (the size of an instance cannot change after creation)")
+        return out + self.frame(before, [(pol(pos), Poly.const(32))], "sa1[0] = String('hi')")
+
+    def op_str_copy(self):
+        """String[3](sa2): a copy reads what its source reads, also when items of the source have room to spare (PF53)"""
+        I = self.I
+        src = self.objs["sa2"]
+        before = self.snapshot()
+        c = I.call(self.SA, [src], {"_buffer": self.ow.buf("B")})
+        _, pos, nb = self.extent(c)
+        name = f"copy{len(self.objs)}"
+        self.objs[name] = c
+        self.expect[name] = dict(self.expect["sa2"])
+        return self.frame(before, [(pos, nb)], "String[3](sa2, _buffer=B)")
+
+    def op_update_dict_refused_late(self):
+        """s1._update({a: <fits>, b: <too long>}): `a` comes first and is written before `b` is refused; the refusal
+        must leave s1 as it was (PF52)"""
+        I = self.I
+        h = self.objs["s1"]
+        na = len([k for k in self.expect["s1"] if k.startswith(".a[")])
+        nb_ = len([k for k in self.expect["s1"] if k.startswith(".b[")])
+        before = self.snapshot()
+        out = []
+        try:
+            I.call(I.getattr(h, "_update"), [{"a": [70.0 + i for i in range(na)], "b": [0.5] * (nb_ + 3)}], {})
+            out.append(f"s1._update(a=<{na} values>, b=<{nb_ + 3} values>) is accepted although b holds {nb_}")
+        except PyExc:
+            pass
+        return out + self.frame(before, [], f"refused s1._update(a=<{na} values>, b=<{nb_ + 3} values>)")
+
+    def op_array_update_refused_late(self):
+        """Q[2]._update([<fits>, <nested array of another shape>]): item 0 is written before item 1 is refused; the
+        refusal must leave the array as it was (PF52)"""
+        I, ow = self.I, self.ow
+        if not hasattr(self, "QA"):
+            F = I.global_lookup("scalar", "Float64")
+            V2 = ow.lab.array("ArrF2", [2], (0,), F)
+            self.Q = ow.lab.struct("Q", [("v", V2)])
+            self.QA = ow.lab.array("ArrQ", [2], (0,), self.Q)
+        qa = I.call(self.QA, [[{"v": [1.0, 2.0]}, {"v": [3.0, 4.0]}]], {"_buffer": ow.buf("B")})
+        before = self.snapshot()
+        out = []
+        try:
+            I.call(I.getattr(qa, "_update"), [[{"v": [9.0, 9.0]}, {"v": [1.0, 2.0, 3.0]}]], {})
+            out.append("Q[2]._update([{v:[9,9]}, {v:[1,2,3]}]) is accepted although v holds 2 values")
+        except PyExc:
+            pass
+        return out + self.frame(before, [], "refused Q[2]._update([{v:[9,9]}, {v:[1,2,3]}])")
+
     def op_too_long(self):
         """a value that does not fit must be refused with nothing changed"""
         I = self.I
@@ -413,6 +488,10 @@ OPS = {
     "str-item-fit": lambda H: H.op_str_item_fit(),
     "str-update-other-size": lambda H: H.op_str_update_other_size(),
     "str-item-too-long": lambda H: H.op_str_item_too_long(),
+    "str-item-from-object": lambda H: H.op_str_item_from_object(),
+    "str-copy": lambda H: H.op_str_copy(),
+    "update-dict-refused-late": lambda H: H.op_update_dict_refused_late(),
+    "array-update-refused-late": lambda H: H.op_array_update_refused_late(),
 }
 
 
@@ -478,7 +557,7 @@ def sv(cx):
     maxlen = 3 if cx.tier == "thorough" else 2
     hs = [h for n in range(1, maxlen + 1) for h in itertools.product(list(OPS), repeat=n)]
     # C11 (refusals without side effects) and C09 (copies): the quick tier keeps the histories that END in such an operation
-    focus = {"C11": ("too-long", "str-item-too-long", "str-update-other-size"), "C09": ("copy-then-update-copy", "copy-to-other-buffer")}.get(cx.prop)
+    focus = {"C11": ("too-long", "str-item-too-long", "str-update-other-size", "update-dict-refused-late", "array-update-refused-late"), "C09": ("copy-then-update-copy", "copy-to-other-buffer", "str-copy")}.get(cx.prop)
     if focus and cx.tier != "thorough":
         hs = [h for h in hs if h[-1] in focus]
         cx.partial = True
@@ -503,7 +582,7 @@ def sv(cx):
         if f:
             k, opn, b = f[0]
             by_op[opn].append((len(h), h, k, b))
-    ANCH = {"str-update": "array::Array._update", "str": "array::Array.__setitem__", "update": "struct::Struct._update", "set-array-field": "array::Array._update", "set-item": "array::Array.__setitem__", "copy": "struct::Struct.__init__", "item": "array::Array.__setitem__", "too-long": "array::Array._update"}
+    ANCH = {"str-update": "array::Array._update", "str-copy": "array::Array._inspect_args", "str": "array::Array.__setitem__", "update": "struct::Struct._update", "array-update": "array::Array._update", "set-array-field": "array::Array._update", "set-item": "array::Array.__setitem__", "copy": "struct::Struct.__init__", "item": "array::Array.__setitem__", "too-long": "array::Array._update"}
     for o in OPS:
         anchor = [v for k, v in ANCH.items() if o.startswith(k)][0]
         n_with = sum(1 for h, f, e in results if o in h)
